@@ -196,7 +196,7 @@ class ZoneStatusEncoder(
         return encoding.bool_to_bit(has_sensor, 7)
 
     def _encode_temperature(self, temperature: Optional[float]) -> int:
-        if temperature:
+        if temperature is not None:
             return utils.encode_temperature(temperature) & 0x07FF
         return _INVALID_TEMPERATURE
 
